@@ -49,7 +49,54 @@ def extract(repo):
             out[f"{name}_FRAG_LOG2_{q}"] = log2_exact(v, f"{name}_FRAGMENT_SIZE")
     if not re.search(r"const BC3_FRAGMENT_SIZE: PreferredFragmentSize\s*=\s*BC1_FRAGMENT_SIZE\.combine\(BC4_FRAGMENT_SIZE\);", bc):
         raise KeyError("encode/bc.rs: BC3_FRAGMENT_SIZE = BC1.combine(BC4)")
+    extract_encoder_loops(rd, out, bc)
     return out
+
+PRIM_SIZE = {"u8": 1, "u16": 2, "u32": 4, "u64": 8, "f32": 4}
+
+def fn_body(src, head, what):
+    """the text of the function whose signature starts with `head` (up to the next top-level `fn `/`macro_rules!`)"""
+    i = src.find(head)
+    if i < 0: raise KeyError(f"{what}: `{head}` not found")
+    m = re.search(r"^(?:pub(?:\([a-z]+\))? )?(?:fn |macro_rules!|type |const )", src[i + len(head):], flags=re.M)
+    return src[i:i + len(head) + (m.start() if m else len(src))]
+
+def extract_encoder_loops(rd, out, bc):
+    """staging-buffer sizes and report cadences of the encoder loops (C15 `*_trapfree`, TrapEnc*.lean)"""
+    def one(body, pat, what, names=None):
+        m = re.search(pat, body)
+        if not m: raise KeyError(what)
+        e = m.group(1)
+        for k, v in (names or {}).items():
+            e = re.sub(r"\b%s\b" % k, str(v), e)
+        return ev(e)
+    un = rd("encode/uncompressed.rs")
+    out["UNC_REPORT_FREQUENCY"] = one(un, r"const REPORT_FREQUENCY: usize = ([^;]+);", "encode/uncompressed.rs: REPORT_FREQUENCY")
+    b = fn_body(un, "fn uncompressed_universal<", "encode/uncompressed.rs")
+    out["UNIVERSAL_BUFFER_PIXELS"] = one(b, r"const BUFFER_PIXELS: usize = ([^;]+);", "uncompressed_universal: BUFFER_PIXELS")
+    b = fn_body(un, "fn uncompressed_universal_dither(", "encode/uncompressed.rs")
+    out["DITHER_BUFFER_PIXELS"] = one(b, r"const BUFFER_PIXELS: usize = ([^;]+);", "uncompressed_universal_dither: BUFFER_PIXELS")
+    m = re.search(r"type EncodedBufferType = (\w+);", b)
+    if not m or m.group(1) not in PRIM_SIZE: raise KeyError("uncompressed_universal_dither: EncodedBufferType")
+    out["DITHER_ENCODED_ELEM_BYTES"] = PRIM_SIZE[m.group(1)]
+    out["DITHER_ERROR_PADDING"] = one(b, r"let error_padding = ([^;]+);", "uncompressed_universal_dither: error_padding")
+    b = fn_body(un, "fn uncompressed_untyped(", "encode/uncompressed.rs")
+    m = re.search(r"let mut raw_buffer = \[0_(\w+); ([^\]]+)\];", b)
+    if not m or m.group(1) not in PRIM_SIZE: raise KeyError("uncompressed_untyped: raw_buffer")
+    out["UNTYPED_BUFFER_BYTES"] = PRIM_SIZE[m.group(1)] * ev(m.group(2))
+    b = fn_body(rd("encode/encoder.rs"), "fn copy_directly(", "encode/encoder.rs")
+    out["COPY_BUFFER_BYTES"] = one(b, r"&mut \[0_u8; ([^\]]+)\]", "copy_directly: staging buffer")
+    b = fn_body(rd("encode/sub_sampled.rs"), "fn uncompressed_universal_subsample<", "encode/sub_sampled.rs")
+    bp = one(b, r"const BUFFER_PIXELS: usize = ([^;]+);", "uncompressed_universal_subsample: BUFFER_PIXELS")
+    out["SUBSAMPLE_BUFFER_PIXELS"] = bp
+    out["SUBSAMPLE_ENCODED_BLOCKS"] = one(b, r"let mut encoded_buffer = \[EncodedBlock::default\(\); ([^\]]+)\];",
+                                          "uncompressed_universal_subsample: encoded_buffer", {"BUFFER_PIXELS": bp})
+    out["SUBSAMPLE_REPORT_FREQUENCY"] = one(b, r"chunk_index % ([0-9_]+) == 0", "uncompressed_universal_subsample: report cadence")
+    b = fn_body(rd("encode/bi_planar.rs"), "fn bi_planar_universal<", "encode/bi_planar.rs")
+    out["BIPLANAR_REPORT_PIXELS"] = one(b, r"let report_frequency = usize::div_ceil\(([^,]+),", "bi_planar_universal: report_frequency")
+    b = fn_body(bc, "fn block_universal<", "encode/bc.rs")
+    for q in ("Fast", "Normal", "High", "Unreasonable"):
+        out[f"BC_REPORT_FREQUENCY_{q.upper()}"] = one(b, r"CompressionQuality::%s => ([0-9_]+)," % q, f"block_universal: report_frequency {q}")
 
 def render(c):
     lines = ["/-", "GENERATED by tools/extract_consts.py from the library source on every check run — do not edit.",
@@ -60,6 +107,21 @@ def render(c):
         "CONVERSION_BUFFER_BYTES": "`ChannelConversionBuffer::BUFFER_BYTES` (src/decode/read_write.rs)",
         "DEFAULT_MEMORY_LIMIT": "`DecodeOptions::default().memory_limit` (src/decode/mod.rs)",
     }
+    doc.update({
+        "UNC_REPORT_FREQUENCY": "`REPORT_FREQUENCY` (src/encode/uncompressed.rs): progress cadence of the chunk loops",
+        "UNIVERSAL_BUFFER_PIXELS": "`uncompressed_universal::BUFFER_PIXELS` (src/encode/uncompressed.rs): both staging buffers",
+        "DITHER_BUFFER_PIXELS": "`uncompressed_universal_dither::BUFFER_PIXELS` (src/encode/uncompressed.rs)",
+        "DITHER_ENCODED_ELEM_BYTES": "`size_of::<EncodedBufferType>()` of `uncompressed_universal_dither` (also its alignment)",
+        "DITHER_ERROR_PADDING": "`error_padding` of `uncompressed_universal_dither`",
+        "UNTYPED_BUFFER_BYTES": "byte length of `raw_buffer` in `uncompressed_untyped` (src/encode/uncompressed.rs)",
+        "COPY_BUFFER_BYTES": "the staging buffer `[0_u8; N]` of `copy_directly` (src/encode/encoder.rs)",
+        "SUBSAMPLE_BUFFER_PIXELS": "`uncompressed_universal_subsample::BUFFER_PIXELS` (src/encode/sub_sampled.rs)",
+        "SUBSAMPLE_ENCODED_BLOCKS": "length of `encoded_buffer` in `uncompressed_universal_subsample` (`BUFFER_PIXELS / 2`)",
+        "SUBSAMPLE_REPORT_FREQUENCY": "progress cadence `chunk_index % N` of `uncompressed_universal_subsample`",
+        "BIPLANAR_REPORT_PIXELS": "numerator of `report_frequency` in `bi_planar_universal` (src/encode/bi_planar.rs)",
+    })
+    for q in ("FAST", "NORMAL", "HIGH", "UNREASONABLE"):
+        doc[f"BC_REPORT_FREQUENCY_{q}"] = "`report_frequency` of `block_universal` (src/encode/bc.rs)"
     for k, v in c.items():
         d = doc.get(k, "log2 of an argument of `PreferredFragmentSize::new` (src/encode/bc.rs)")
         lines += [f"/-- {d} -/", f"def {k} : Nat := {v}", ""]
